@@ -31,6 +31,7 @@ THEOREMS = [
     "BeyondVerif.C12.valid_entry_yielded_anywhere",
     "BeyondVerif.C12.orbit_reads_exact",
     "BeyondVerif.C12.epoch_from_utc_date",
+    "BeyondVerif.C12.tle_orbit_builds_fresh",
     "BeyondVerif.C12.accepted_writes_69_columns",
     "BeyondVerif.C12.accepted_norad_fits",
     "BeyondVerif.C12.norad_int_accepted_only",
@@ -1466,6 +1467,54 @@ def o_history_directed(out, rng):
 
 
 
+def o_tle_reuse(out, rng):
+    """one Tle object asked for its orbit several times, the orbits handed out being modified in place in between: every orbit() is a
+    new object holding the PARSED values (Tle.from_orbit of it gives the text a fresh parse gives), the Tle itself does not change, and
+    an orbit handed out earlier keeps its own modifications"""
+    from beyond.io.tle import Tle
+    r = gen_rec(rng)
+    text = spec_text(r)
+    tle = Tle(text)
+    inp = {"record": r}
+    try:
+        want = "ok " + str(Tle.from_orbit(Tle(text).orbit()))
+    except Exception as e:  # noqa
+        want = real_error_token(e)
+    o1 = tle.orbit()
+    cur = dict(r)
+    _, _, ops = gen_history(rng, n=rng.randint(1, 4))
+    mods = [op for op in ops if op[0] not in ("read", "copy", "copyconv", "reread")] or [("name", "REUSED"), ("bstar", gen_rec(rng)["bstar"])]
+    for op in mods:
+        o1 = hist_apply(o1, cur, op, rng)
+    out.count(key=("reuse", text, repr(mods)), kind="tle-reuse", mods=len(mods))
+    o2 = tle.orbit()
+    inp = dict(inp, mods=mods)
+    if o2 is o1:
+        out.fail("tle-orbit-same-object", "two calls of Tle.orbit() on one Tle hand out the same Orbit object", inp, observed="o2 is o1", expected="distinct objects")
+        return
+    try:
+        got = "ok " + str(Tle.from_orbit(o2))
+    except Exception as e:  # noqa
+        got = real_error_token(e)
+    if got != want:
+        out.fail("tle-orbit-after-inplace-" + mods[-1][0], "Tle.orbit() after an earlier orbit of the same Tle was modified in place does not hold the parsed values", inp, observed=got, expected=want)
+        return
+    if str(tle) != str(Tle(text)) or tle.to_list() != Tle(text).to_list():
+        out.fail("tle-object-changed", "the Tle object changed after an orbit it handed out was modified", inp, observed=str(tle), expected=str(Tle(text)))
+        return
+    # the earlier orbit keeps its own modifications
+    try:
+        g1 = "ok " + str(Tle.from_orbit(o1))
+    except Exception as e:  # noqa
+        g1 = real_error_token(e)
+    try:
+        w1 = "ok " + str(Tle.from_orbit(fresh_orbit(o1)))
+    except Exception as e:  # noqa
+        w1 = real_error_token(e)
+    if g1 != w1:
+        out.fail("tle-reuse-first-orbit-lost-" + mods[-1][0], "an orbit modified in place lost its values after Tle.orbit() was called again", inp, observed=g1, expected=w1)
+
+
 def o_unfloat(out, rng):
     from beyond.io.tle import _float, _unfloat
     u = gen_unfl(rng)
@@ -1517,6 +1566,8 @@ def oracle(ctx, widened):
         o_from_string_modes(out, rng)
     for _ in range(3000 if big else 300):
         o_form_chain(out, rng)
+    for _ in range(2000 if big else 200):
+        o_tle_reuse(out, rng)
     out.sample({"checked": "parse->write identity, write->parse elements, 69 columns + checksums, every digit/length/line-number corruption rejected, from_string yields exactly the valid entries"})
     return out
 
@@ -1942,6 +1993,27 @@ def read_writer(tree):
     return parse_format(fmts["line1"][0]), parse_format(fmts["line2"][0])
 
 
+def read_tle_orbit(tree):
+    """Tle.orbit(): 'stmt:<kind>' per top-level statement (docstring dropped), 'store:self.<attr>' for every attribute of self that
+    is assigned anywhere inside, 'return:<callee>(<positional args>)' for every return"""
+    fn = _find(tree, "Tle", "orbit")
+    out = []
+    for st in fn.body:
+        if isinstance(st, ast.Expr) and isinstance(st.value, ast.Constant):
+            continue
+        out.append("stmt:" + type(st).__name__)
+    for node in ast.walk(fn):
+        if isinstance(node, ast.Attribute) and isinstance(node.ctx, (ast.Store, ast.Del)) and isinstance(node.value, ast.Name) and node.value.id == "self":
+            out.append("store:self." + node.attr)
+        if isinstance(node, ast.Return):
+            v = node.value
+            if isinstance(v, ast.Call):
+                out.append("return:" + ast.unparse(v.func) + "(" + ", ".join(ast.unparse(a) for a in v.args) + ")")
+            else:
+                out.append("return:" + ("" if v is None else ast.unparse(v)))
+    return out
+
+
 def read_orbit_uses(tree):
     """every use of the parameter `orbit` inside Tle.from_orbit, in source order, without repetitions: attribute names, hasattr/getattr
     probes, the re-assignment by copy(), the unpacking of the six elements; anything else shows up as '<other:…>'"""
@@ -2058,7 +2130,9 @@ def extract(ctx):
            "/-- the expression assigned to `date` (what the year, the day of year and the day fraction are all taken from) -/",
            f"def dateExpr : String := {_lean_str(date_expr)}",
            "/-- the expression `orbit` is re-assigned to before its elements are read -/",
-           f"def copyExpr : String := {_lean_str(copy_expr)}", ""]
+           f"def copyExpr : String := {_lean_str(copy_expr)}",
+           "/-- `Tle.orbit()`: kind of every statement, every store to an attribute of `self`, and the expression returned -/",
+           "def tleOrbitShape : List String := [" + ", ".join(_lean_str(u) for u in read_tle_orbit(tree)) + "]", ""]
     for k, lean in LEAN_NAMES.items():
         v, a, b = cols[k]
         out.append(f"def {lean} : Nat × Nat := ({a}, {b})   -- {v}[{a}:{b}]")
